@@ -96,6 +96,46 @@ def fields():
     f.append(('dtls_record_type_version', 65536, lambda v: ('dtls_header', bytes([v >> 8]) + u16(v) + b'\0\1' + b'\0' * 6 + b'\0\0', 'ok 0 (DHdr %d %d 1 0 0)' % (v >> 8, v))))
     f.append(('dtls_hello_verify_version', 65536, lambda v: ('dtls_hs', bytes([3]) + b'\0\0\3' + b'\0\0' + b'\0\0\0' + b'\0\0\3' + u16(v) + b'\0',
               'ok 0 (M 0 (Hs 3 3 0 0 3 (HelloVerifyRequest %d +0)))' % v)))
+    # size axis: a code point must be preserved whatever the *sizes* of its sibling fields are (a check keyed on a code point
+    # together with a length window - "names longer than 255", "records of 768..1023 bytes" - is invisible at one fixed size)
+    PAY = (0, 1, 255, 256, 767, 768, 1023, 1024, 4096, 16384, 16640)
+    for L in PAY:
+        def rawrec(v, L=L, op='tls_raw', name='Raw'):
+            ver = VERS[(v + L) % len(VERS)]
+            return (op, bytes([v]) + u16(ver) + u16(L) + bytes(L), 'ok 0 (%s (Hdr %d %d %d) %s)' % (name, v, ver, L, S(5, L)))
+        f.append(('raw_record_type/len%d' % L, 256, rawrec))
+        f.append(('encrypted_record_type/len%d' % L, 256, lambda v, L=L: rawrec(v, L, 'tls_encrypted', 'Enc')))
+    for L, pad in ((0, 0), (1, 16), (255, 0), (256, 1), (4096, 16), (16000, 300)):
+        f.append(('heartbeat_type/len%d' % L, 256, lambda v, L=L, pad=pad: ('tls_plaintext', bytes([24, 3, 3]) + u16(3 + L + pad) + bytes([v]) + u16(L) + bytes(L + pad),
+                  'ok 0 (Plain (Hdr 24 771 %d) [(Hb %d %d %s)])' % (3 + L + pad, v, L, S(8, L)))))
+    for L in (0, 2, 255, 256, 257, 1000, 16000):
+        def sni(v, L=L):
+            item = bytes([v]) + u16(L) + b'a' * L
+            data = u16(len(item) * 2) + item + item
+            return ('ext', ext(0, data), 'ok 0 (SNI [(P %d %s) (P %d %s)])' % (v, S(9, L), v, S(9 + 3 + L + 3 - 3, L)))
+        f.append(('sni_name_type/len%d' % L, 256, sni))
+    for L in (0, 1, 255, 256, 1000):
+        f.append(('status_request_type/len%d' % L, 256, lambda v, L=L: ('ext', ext(5, bytes([v]) + bytes(L)), 'ok 0 (StatusRequest (some (P %d %s)))' % (v, S(5, L)))))
+    for L in (0, 255, 256, 65535, 70000):
+        f.append(('certificate_status_type/len%d' % L, 256, lambda v, L=L: ('msg_handshake', hs(22, bytes([v]) + L.to_bytes(3, 'big') + bytes(L)),
+                  'ok 0 (Hs (CertificateStatus %d %s))' % (v, S(8, L)))))
+    for n in (1, 2, 16, 255):
+        f.append(('psk_mode/n%d' % n, 256, lambda v, n=n: ('ext', ext(45, bytes([n]) + bytes([(v + k) % 256 for k in range(n)])), 'ok 0 (PskExchangeModes x:%s)' % bytes([(v + k) % 256 for k in range(n)]).hex())))
+        f.append(('ec_point_format/n%d' % n, 256, lambda v, n=n: ('ext', ext(11, bytes([n]) + bytes([v] * n)), 'ok 0 (EcPointFormats %s)' % S(5, n))))
+        f.append(('compression_id/n%d' % n, 256, lambda v, n=n: ('msg_handshake', hs(1, b'\3\3' + Z32 + b'\0' + b'\0\2\0\x2f' + bytes([n]) + bytes([(v + k) % 256 for k in range(n)])),
+                  'ok 0 (Hs (ClientHello 771 %s none [47] [%s] none))' % (S(6, 32), ' '.join(str((v + k) % 256) for k in range(n))))))
+        f.append(('certificate_type/n%d' % n, 256, lambda v, n=n: ('msg_handshake', hs(13, bytes([n]) + bytes([(v + k) % 256 for k in range(n)]) + b'\0\0' + b'\0\0'),
+                  'ok 0 (Hs (CertificateRequest [%s] (some []) []))' % ' '.join(str((v + k) % 256) for k in range(n)))))
+    for n in (1, 16, 128, 129, 1000):
+        f.append(('cipher_suite_id/n%d' % n, 65536, lambda v, n=n: ('msg_handshake', hs(1, b'\3\3' + Z32 + b'\0' + u16(2 * n) + b''.join(u16((v + k) % 65536) for k in range(n)) + b'\1\0'),
+                  'ok 0 (Hs (ClientHello 771 %s none [%s] [0] none))' % (S(6, 32), ' '.join(str((v + k) % 65536) for k in range(n))))))
+        f.append(('named_group_ext/n%d' % n, 65536, lambda v, n=n: ('ext', ext(10, u16(2 * n) + b''.join(u16((v + k) % 65536) for k in range(n))), 'ok 0 (EllipticCurves [%s])' % ' '.join(str((v + k) % 65536) for k in range(n)))))
+        f.append(('signature_algorithm_ext/n%d' % n, 65536, lambda v, n=n: ('ext', ext(13, u16(2 * n) + b''.join(u16((v + k) % 65536) for k in range(n))), 'ok 0 (SignatureAlgorithms [%s])' % ' '.join(str((v + k) % 65536) for k in range(n)))))
+    for el, sl in ((0, 0), (255, 1), (256, 256), (1000, 0)):
+        def sctv(v, el=el, sl=sl):
+            tail = Z32 + b'\0' * 8 + u16(el) + bytes(el) + b'\4\3' + u16(sl) + b'\x99' * sl
+            return ('sct', u16(1 + len(tail)) + bytes([v]) + tail, 'ok 0 (SCTE %d %s 0 %s (DSig (some (P 4 3)) %s))' % (v, S(3, 32), S(45, el), S(45 + el + 4, sl)))
+        f.append(('ct_version/ext%d_sig%d' % (el, sl), 256, sctv))
     return f
 
 
@@ -106,6 +146,8 @@ def run(ctx):
     for name, dom, build in fields():
         if dom == 256 or ctx.thorough or name.startswith('extension_type'):
             vals = range(dom)
+        elif '/n' in name:
+            vals = sorted(set(range(0, dom, 251)) | set(range(0, 64)) | {dom - 1, 0x7f12, 0x0a0a, 0xfafa, 0xfe00, 0xff01})
         else:
             vals = sorted(set(range(0, dom, 13)) | set(range(0, 600)) | {dom - 1, dom - 2, 0x7f12, 0x0a0a, 0xfafa, 0xfe00, 0xfeff, 0xff01, 0xffce})
         for v in vals:
@@ -117,9 +159,10 @@ def run(ctx):
     common.run_exact(ctx, cases)
     for c in cases[::997]:
         ctx.sample({'field': c.fam, 'line': c.line[:160], 'expect': c.expect[:160]})
+    common.run_cg(ctx, ('tls_raw ', 'tls_encrypted ', 'tls_header ', 'dtls_header ', 'msg_alert ', 'msg_heartbeat ', 'hs_key_update ', 'named_groups ', 'ext_c_', 'ext_sni_hostname '), common.proj_value)
     common.lean_failure_violation(ctx, ok)
     return ctx.finish(LEVEL,
-        rule='for each enumerated field named by the property (33 field sweeps): every value of its domain (all 256; all 65536 in the thorough tier, every 13th value plus boundaries and registry neighbourhoods in the quick tier) inside a fixed otherwise well-formed enclosing structure; exact expected value; distinct = (field, outcome shape)',
+        rule='for each enumerated field named by the property (33 field sweeps): every value of its domain (all 256; all 65536 in the thorough tier, every 13th value plus boundaries and registry neighbourhoods in the quick tier) inside a fixed otherwise well-formed enclosing structure, and again with the sibling fields at several sizes (record payloads 0..16640, names 0..16000, lists of 1..1000 entries) and versions; exact expected value; distinct = (field, outcome shape)',
         checker_cmd='cd /verif/lean && lake build TlsModel.Props.C11', assumptions=[],
         extra={'exhaustive': bool(ctx.thorough)})
 
